@@ -5,7 +5,7 @@ import common
 
 PROPS = "RotoV.Props.C02"
 MODULES = ["RotoV.Lemmas.Layout", "RotoV.Lemmas.LayoutPath", "RotoV.Lemmas.LayoutClone", "RotoV.Lemmas.LayoutEq", "RotoV.Lemmas.LayoutTotal", "RotoV.Lemmas.LayoutDrop", "RotoV.Lemmas.LayoutRead", "RotoV.Lemmas.LayoutWrite", "RotoV.Lemmas.LayoutListEq", "RotoV.Model.LayoutListEq", "RotoV.Model.LayoutListStd", "RotoV.Model.LayoutMem", "RotoV.Model.Layout", "RotoV.Model.LayoutOps",
-           "RotoV.Model.LayoutStd", "RotoV.Model.LayoutKind", "RotoV.Model.ValueSpec", "RotoV.Model.ValueCtor", "RotoV.Lemmas.ValueCtor"]
+           "RotoV.Model.LayoutStd", "RotoV.Model.LayoutKind", "RotoV.Model.ValueSpec", "RotoV.Model.ValueCtor", "RotoV.Lemmas.ValueCtor", "RotoV.Model.ValueMatch", "RotoV.Lemmas.ValueMatch", "RotoV.Model.ValueMir", "RotoV.Lemmas.ValueMir"]
 
 
 def search(ctx):
@@ -17,7 +17,7 @@ def search(ctx):
 
 
 def run(ctx):
-    ctx.extract(["layout", "layoutloops", "layoutdecide", "layoutlisteq"])
+    ctx.extract(["layout", "layoutloops", "layoutdecide", "layoutlisteq", "matchexaminee"])
     ctx.prove(PROPS, extra_modules=MODULES)
     if ctx.build_harness("c02"):
         rep = ctx.harness("c02", ["run", ctx.seed, ctx.tier], timeout=3000)
@@ -36,10 +36,17 @@ def run(ctx):
             n = sum(h.values())
             ctx.obligation("reach:constructor-mir-validated", n >= 500,
                            f"{n} constructor programs validated ({h}); the phase did not run or lost its cases")
+        if rep is not None and not any((v.get("input") or {}).get("kind") == "beh" for v in rep.get("impl_violations", [])):
+            # the MIR checker must have SEEN matches: binding extractions of the real lowerer's MIR that the
+            # verified checker `matchIsOnCopy` (c02 mirmatch) accepted, item by item
+            h = rep.get("histograms", {}).get("mir_match_checker", {})
+            ctx.obligation("reach:match-bindings-verified-on-real-mir", h.get("binding-extractions-verified", 0) >= 3000 and h.get("no-dump", 0) == 0,
+                           f"{h} (the hook dump of the scripts' MIR no longer reaches the checker)")
     ctx.trusted += [
         "usize is modelled as Nat: no wrap-around in layout arithmetic (sizes of real types are far below 2^64)",
         "leaf layouts (primitives, String, List, registered types) are whatever the runtime reports; theorems assume only that they pass Layout::new's asserts",
         "modelled, not verified: the memory operations themselves (Cranelift loads/stores/memcpy, the registered clone/drop/eq functions)",
+        "match_bindings_read_the_switched_value_mir is about `Model/ValueMir.flatten` of the dumped item: that reading of the MIR's control flow and of what an instruction does to a variable (assign / set discriminant / drop / move / call argument = affects; discriminant(v); clone(v.<variant field>)) is definitional, and the dump itself (verif_hooks::c03, numeric) is trusted to render the MIR the compiler goes on to lower",
         "T8 (constructors hold their values) is about the hand transliteration `Model/ValueCtor.lower` of Lowerer::record/binop/assign/block and the executed meaning of MIR assignments given there; the real lowerer's MIR is run against the spec per generated program (and compared instruction for instruction, measured), not proved equal for all programs",
     ]
     return ctx.finish(
